@@ -31,6 +31,8 @@ MinLen = {minlen}
 NLabels = {nlabels}
 SplitEvery = {se}
 Wide = {wide}
+Reindexes = {{{reindexes}}}
+ByDasks = {{{bydasks}}}
 Names = {{{names}}}
 """
 
@@ -44,10 +46,12 @@ def _workdir(td):
             shutil.copy(f, os.path.join(td, f.name))
 
 
-def simulate(n: int, seed: int, *, maxlen=5, minlen=None, nlabels=3, se=2, wide=True, names=NAMES, timeout=900) -> tuple[list, dict]:
+def simulate(n: int, seed: int, *, maxlen=5, minlen=None, nlabels=3, se=2, wide=True, names=NAMES, timeout=900,
+             reindexes=("none", "true", "false"), bydasks=(False, True)) -> tuple[list, dict]:
     """n behaviours of Flox.tla (one TLC -simulate run, single worker: PrintT lines stay whole)"""
     cfg = CFG.format(maxlen=maxlen, minlen=maxlen if minlen is None else minlen, nlabels=nlabels, se=se,
-                     wide="TRUE" if wide else "FALSE", names=", ".join(json.dumps(x) for x in names))
+                     wide="TRUE" if wide else "FALSE", names=", ".join(json.dumps(x) for x in names),
+                     reindexes=", ".join(json.dumps(x) for x in reindexes), bydasks=", ".join("TRUE" if b else "FALSE" for b in bydasks))
     cfg += "INVARIANT Emit\nINVARIANT Inv_Result\nINVARIANT Inv_CleanRefusal\nINVARIANT Inv_AutoPlanSound\n"
     os.makedirs("/verif/out/work", exist_ok=True)
     with tempfile.TemporaryDirectory(prefix="flox-sim-", dir="/verif/out/work") as td:
@@ -96,6 +100,7 @@ def case_of(beh, table):
         "func": row["name"], "vals": [list(v) for v in beh["vals"]], "dtype": "f8", "codes": list(beh["labs"]), "label_kind": "float",
         "chunks": chunks_of(beh["cuts"]), "method": None if method == "none" else method, "sort": bool(beh["cfg"]["sort"]),
         "ddof": row["ddof"] or None, "split_every": beh["se"],
+        "reindex": {"none": None, "true": True, "false": False}[beh["cfg"].get("reindex", "none")], "by_dask": bool(beh["cfg"].get("byDask", False)),
     }
     if beh["cfg"]["hasExpected"]:
         case["req"] = [nl - i for i in range(1, nl + 1)]
@@ -140,7 +145,7 @@ def run_compose_case(beh: dict) -> dict:
             if not blockwise_out_of_scope:
                 fails.append(("compose:unclean-exception", f"{rec['exc']}: {rec.get('msg')}"))
         elif spec_plan["kind"] == "ok":
-            drift.append(f"compose: spec plans {spec_plan['method']} but the call refuses with {rec['exc']}: {rec.get('msg', '')[:80]}")
+            drift.append(f"compose: spec plans {spec_plan['method']} but the call refuses with {rec['exc']}: {rec.get('msg', '')[:80]} case={json.dumps(case)}")
         elif spec_plan["kind"] != rec["exc"]:
             drift.append(f"compose: refusal kind {rec['exc']} where the spec says {spec_plan['kind']}")
         out.update(fails=fails, drift=drift)
@@ -158,10 +163,15 @@ def run_compose_case(beh: dict) -> dict:
     if blockwise_out_of_scope:
         out.update(fails=fails, drift=drift)
         return out
-    if list(rec["groups"]) != list(beh["groups"]):
+    open_order = case["by_dask"] and case.get("req") is None and not case["sort"]    # discovered groups, sort=False: order left open
+    got_groups, got_out = list(rec["groups"]), list(rec["out"])
+    if open_order and sorted(got_groups) == sorted(beh["groups"]) and len(set(got_groups)) == len(got_groups):
+        order = [got_groups.index(g) for g in beh["groups"]]
+        got_groups, got_out = [got_groups[i] for i in order], [got_out[i] for i in order]
+    if got_groups != list(beh["groups"]):
         fails.append(("compose:labels", f"returned labels {rec['groups']} where the specification says {beh['groups']}"))
     else:
-        for k, (exp, got) in enumerate(zip(beh["result"], rec["out"])):
+        for k, (exp, got) in enumerate(zip(beh["result"], got_out)):
             exp, got = list(exp), list(got)
             if exp[1] < 0 or got[1] == -2:     # unspecified in the model / not representable
                 continue
